@@ -58,24 +58,82 @@ func (t c05Tree) render() map[string]string {
 	return files
 }
 
-// nameReuse tells whether some service name is defined in two files of the tree.  The recorded defect of the cycle
-// tracker (it keys on the *extending service's name* and the *referenced* file) needs such a name; failure keys carry
-// this bit so that a false "Circular reference" on a chain with distinct names is never mistaken for the known one.
-func (t c05Tree) nameReuse() string {
-	seen := map[string]int{}
-	for _, tr := range t.Trees {
+// trackerClash replays, on the harness's own view of the tree, which keys the *unchanged* cycle tracker records along
+// the chain of every service of the main file — (reference string, extending name) for a `file:` step, (main file,
+// extending name) for a same-file step, also inside a base file — and tells whether some acyclic chain records one key
+// twice.  That is exactly the recorded defect (findings/C05.txt); failure keys carry this bit, so a false "Circular
+// reference" on a chain *without* such a clash is never mistaken for the known one.
+func (t c05Tree) trackerClash() string {
+	docs := map[string]map[string]any{}
+	for f, tr := range t.Trees {
 		doc, _ := core.DecodeVal(tr).(map[string]any)
 		svcs, _ := doc["services"].(map[string]any)
-		for n := range svcs {
-			seen[n]++
+		docs[f] = svcs
+	}
+	relDir := func(file string) string {
+		r, err := filepath.Rel(t.WD, filepath.Dir(file))
+		if err != nil {
+			return "."
+		}
+		return r
+	}
+	for start := range docs[t.Main] {
+		file, name := t.Main, start
+		nodes := map[string]bool{}
+		keys := map[string]bool{}
+		for step := 0; step < 24; step++ {
+			node := file + "\x00" + name
+			if nodes[node] {
+				break // a genuine cycle
+			}
+			nodes[node] = true
+			svc, _ := docs[file][name].(map[string]any)
+			if svc == nil {
+				break
+			}
+			var ref, key string
+			next := file
+			switch e := svc["extends"].(type) {
+			case string:
+				ref, key = e, "<main>\x00"+name
+			case map[string]any:
+				r, ok := e["service"].(string)
+				if !ok {
+					ref = "\x00"
+					break
+				}
+				ref = r
+				if f, ok := e["file"].(string); ok {
+					spelled := f
+					if file != t.Main {
+						spelled = filepath.Join(relDir(file), f)
+					}
+					key = spelled + "\x00" + name
+					next = filepath.Join(filepath.Dir(file), f)
+				} else {
+					key = "<main>\x00" + name
+				}
+			default:
+				ref = "\x00"
+			}
+			if ref == "\x00" || key == "" {
+				break
+			}
+			if _, ok := docs[next][ref]; !ok {
+				break
+			}
+			if keys[key] {
+				// the same key twice; is the next node new?  (a repeated node is a real cycle)
+				if !nodes[next+"\x00"+ref] {
+					return "key-clash"
+				}
+				break
+			}
+			keys[key] = true
+			file, name = next, ref
 		}
 	}
-	for _, c := range seen {
-		if c > 1 {
-			return "name-reuse"
-		}
-	}
-	return "distinct-names"
+	return "no-key-clash"
 }
 
 var c05ErrClasses = []struct {
@@ -452,7 +510,7 @@ func judgeC05Order(args, real, drv json.RawMessage) *core.Verdict {
 	}
 	var a c05ApplyArgs
 	json.Unmarshal(args, &a)
-	return core.Fail("order-dependent:"+strings.Join(cl, "|")+":"+a.nameReuse(), fmt.Sprintf("the outcome of ApplyExtends depends on the visit order of the services map: %v → %s, %v → %s",
+	return core.Fail("order-dependent:"+strings.Join(cl, "|")+":"+a.trackerClash(), fmt.Sprintf("the outcome of ApplyExtends depends on the visit order of the services map: %v → %s, %v → %s",
 		r.Distinct[0].Order, outcomeClass(r.Distinct[0].Out), r.Distinct[1].Order, outcomeClass(r.Distinct[1].Out)))
 }
 
